@@ -165,6 +165,10 @@ def config(draw, tier="quick", resume=False):
         spec["val_interval"] = None
         return spec
     spec["steps"] = draw(st.sampled_from([3, 2, 4, 5, 1, 6, 7, 8]))
+    spec["default_names"] = draw(st.integers(0, 2)) == 0
+    spec["default_opt_args"] = draw(st.booleans())
+    # optionally a second, independent training with another learning rate in the same process
+    spec["second_lr"] = draw(st.sampled_from([None, None, 0.1, 0.37, 3.0]))
     n_val = draw(st.sampled_from([0, 0, 1, 2]))
     val = []
     for _ in range(n_val):
@@ -351,7 +355,8 @@ class World:
 
 def _opt_class_args(o):
     if o["kind"] == "sgd":
-        return torch.optim.SGD, {"weight_decay": o["weight_decay"]}
+        # plain SGD: no optimizer arguments at all, so that OptimizerSetting's default is exercised
+        return torch.optim.SGD, ({"weight_decay": o["weight_decay"]} if o["weight_decay"] else {})
     if o["kind"] == "momentum":
         return torch.optim.SGD, {"momentum": o["momentum"], "nesterov": o["nesterov"],
                                  "weight_decay": o["weight_decay"]}
@@ -446,12 +451,14 @@ def _build_cond(w, c, tag, gen, validation):
         w.extra_models.append(model)
         info["model"] = None
     name = f"{typ}_{tag}"
+    # default names: several conditions of one class then share the class' default name
+    nkw = {} if w.spec.get("default_names") else {"name": name}
     if typ == "param":
         pi = c["params"][0] % len(w.params)
         pv = w.pvars[pi]
         target = c["target"]
         penalty = _named(pv, lambda env: sum(((env[v] - target) ** 2).sum() for v in pv))
-        return ParameterCondition(w.params[pi], penalty, weight=c["weight"], name=name), info
+        return ParameterCondition(w.params[pi], penalty, weight=c["weight"], **nkw), info
     if typ == "data":
         n = c["n"]
         xin = torch.rand((n, _in_dim(mspec["in"])), generator=gen)
@@ -467,7 +474,7 @@ def _build_cond(w, c, tag, gen, validation):
             constrain = _named([out_name] + invars,
                                lambda env: env[out_name] * (1.0 + _xcat(env, invars).sum(dim=1, keepdim=True)))
         cond = DataCondition(model, loader, norm=c["norm"], root=c["root"],
-                             use_full_dataset=c["full"], name=name, constrain_fn=constrain,
+                             use_full_dataset=c["full"], constrain_fn=constrain, **nkw,
                              weight=c["weight"])
         return cond, info
     # ---- conditions with a sampler, a residual and an optional Parameter
@@ -512,7 +519,7 @@ def _build_cond(w, c, tag, gen, validation):
             return r
         if use_fn:
             kw["data_functions"] = {"f": _data_fn(mspec)}
-        cond = PeriodicCondition(model, interval, _named(names, body), name=name,
+        cond = PeriodicCondition(model, interval, _named(names, body), **nkw,
                                  weight=c["weight"], track_gradients=c.get("track", True), **kw)
         return cond, info
     sampler, total = _build_sampler(c["sampler"], mspec["in"], gen, force_static=(typ == "adaptive"))
@@ -527,15 +534,15 @@ def _build_cond(w, c, tag, gen, validation):
     if typ in ("mean", "ritz"):
         res = _residual(c, mspec, out_name, pvars, integrand=True)
         cls = MeanCondition if typ == "mean" else DeepRitzCondition
-        cond = cls(model, sampler, res, name=name, weight=c["weight"],
+        cond = cls(model, sampler, res, **nkw, weight=c["weight"],
                    track_gradients=c.get("track", True), **kw)
         return cond, info
     res = _residual(c, mspec, out_name, pvars)
     if typ == "adaptive":
-        cond = AdaptiveWeightsCondition(model, sampler, res, name=name, weight=c["weight"], **kw)
+        cond = AdaptiveWeightsCondition(model, sampler, res, **nkw, weight=c["weight"], **kw)
         info["adaptive"] = cond.adaptive_layer.weight
         return cond, info
-    cond = PINNCondition(model, sampler, res, name=name, weight=c["weight"],
+    cond = PINNCondition(model, sampler, res, **nkw, weight=c["weight"],
                          track_gradients=c.get("track", True), **kw)
     return cond, info
 
@@ -592,7 +599,8 @@ def snapshot(tensors):
 def make_solver(w):
     cls, args = _opt_class_args(w.spec["opt"])
     scls, sargs, freq = _sched_class_args(w.spec["sched"])
-    setting = tp.OptimizerSetting(cls, w.spec["opt"]["lr"], optimizer_args=dict(args),
+    okw = {} if (w.spec.get("default_opt_args") and not args) else {"optimizer_args": dict(args)}
+    setting = tp.OptimizerSetting(cls, w.spec["opt"]["lr"], **okw,
                                   scheduler_class=scls, scheduler_args=dict(sargs),
                                   scheduler_frequency=freq)
     return tp.solver.Solver(w.train, w.val, optimizer_setting=setting)
